@@ -139,12 +139,14 @@ Definition is_struct (t : ty) : bool := match t with TStruct _ => true | _ => fa
 
 Fixpoint uniform_members_ok (ms : list member) (offs : list Z) : bool :=
   match ms, offs with
-  | m :: ((_ :: _) as r), o :: ((o2 :: _) as ro) =>
-      (o mod required_align_uniform (mty m) =? 0) &&
-      (if is_struct (mty m) then o + round_up 16 (size_of (mty m)) <=? o2 else true) &&
-      uniform_members_ok r ro
-  | [m], [o] => (o mod required_align_uniform (mty m) =? 0)
   | [], [] => true
+  | m :: r, o :: ro =>
+      (o mod required_align_uniform (mty m) =? 0) &&
+      (match ro with
+       | o2 :: _ => if is_struct (mty m) then o + round_up 16 (size_of (mty m)) <=? o2 else true
+       | [] => true
+       end) &&
+      uniform_members_ok r ro
   | _, _ => false
   end.
 
@@ -156,4 +158,28 @@ Fixpoint uniform_ok (t : ty) : bool :=
   | TStruct ms => forallb (fun m => match m with Mem _ _ t' => uniform_ok t' end) ms &&
                   uniform_members_ok ms (member_offsets ms)
   | _ => true
+  end.
+
+(* std140 additionally stores matrix columns at a multiple of 16 bytes: only matrices
+   whose column alignment already is one can coincide (mat?x3<f32>, mat?x4<f32>) *)
+Fixpoint std140_mat_ok (t : ty) : bool :=
+  match t with
+  | TMat c r s => vec_align r s mod 16 =? 0
+  | TArray e _ | TRArray e => std140_mat_ok e
+  | TStruct ms => forallb (fun m => match m with Mem _ _ t' => std140_mat_ok t' end) ms
+  | _ => true
+  end.
+
+(* erase what a placement comparison does not look at *)
+Fixpoint erase_leaf (l : lay) : lay :=
+  match l with
+  | LLeaf _ => LLeaf 0
+  | LArr st n e => LArr st n (erase_leaf e)
+  | LStruct sp offs subs => LStruct sp offs (map erase_leaf subs)
+  end.
+Fixpoint erase_sizes (l : lay) : lay :=
+  match l with
+  | LLeaf _ => LLeaf 0
+  | LArr st n e => LArr st n (erase_sizes e)
+  | LStruct sp offs subs => LStruct 0 offs (map erase_sizes subs)
   end.
